@@ -76,6 +76,19 @@ def run(chk):
         if r != want:
             chk.violate({"kind": "property", "case": lib.show_case(c), "impl": r[:500], "expected": want[:500],
                          "explanation": "behind a target that accepts part of each Write the hashing writers do not report the length and digests of the bytes that went through"})
+    # a Hasher on its own is an io.Writer: Write, io.WriteString and fmt.Fprint in turn
+    hc = []
+    for data in datas[:chk.n(30, 300)]:
+        for ch in chunkings(rng, data[:2000])[:2]:
+            hc.append(("hbare", [rng.choice([b"md5", b"sha1", b"sha256", b"sha512"])] + ch))
+    hi = chk.run_impl(hc)
+    chk.record("a-hasher-on-its-own", hc, hi, lambda c, r: True)
+    for c, r in zip(hc, hi):
+        d = b"".join(c[1][1:])
+        want = "%d:%s" % (len(d), getattr(_hl, c[1][0].decode())(d).hexdigest())
+        if r != want:
+            chk.violate({"kind": "property", "case": lib.show_case(c), "impl": r, "expected": want,
+                         "explanation": "a Hasher fed through Write / io.WriteString / fmt.Fprint does not report the length and digest of what it was given"})
     for bad in (["sha3"], ["md5", "crc32"], [""], ["SHA256"]):
         wcases.append(("hwrite", [",".join(bad).encode(), b"abc"])); meta.append((b"abc", bad))
     impl = chk.run_impl(wcases)
